@@ -69,3 +69,107 @@ latch_sr = _items_contract("latch_set_reset", True)
 latch_rs = _items_contract("latch_reset_set", False)
 
 CONTRACTS = [invert, latch_sr, latch_rs]
+
+# =================================================================================================
+# Inlined latch (single multi-condition decider): the rows the real builder hands to the placement
+# encode the set/reset/hold machine with the priority the latch type says — for every comparator pair,
+# every pair of thresholds, every input value and every feedback value.
+# =================================================================================================
+from pyvc.values import SObj, fresh_name  # noqa: E402
+
+CAP = {}
+
+
+def _placement_effect(ex, a):
+    CAP["conditions"] = a.conditions
+    CAP["output_signal"] = a.output_signal
+    CAP["copy"] = a.copy_count_from_input
+    CAP["output_value"] = a.output_value
+    return SObj(["EntityPlacement"], fresh_name("placement"), lazy=True)
+
+
+_OPQ = ty.TOpaque("x")
+create_placement = Contract(
+    qualname="dsl_compiler/src/layout/layout_plan.py::LayoutPlan.create_and_add_placement",
+    params={"self": _OPQ, "ir_node_id": _OPQ, "entity_type": _OPQ, "position": _OPQ, "footprint": _OPQ, "role": _OPQ, "debug_info": _OPQ,
+            "conditions": _OPQ, "output_signal": _OPQ, "copy_count_from_input": _OPQ, "output_value": _OPQ},
+    effect=_placement_effect, verify=False,
+    note="records the placement properties (the rows are what the emitter turns into the decider's conditions: contracts.c07 / S2)")
+signal_name = Contract(qualname="dsl_compiler/src/layout/signal_analyzer.py::SignalAnalyzer.get_signal_name", params={"self": _OPQ, "signal_type": _OPQ},
+                       returns=ty.Str, verify=False, note="name lookup")
+
+
+def _rows_active(conds, in_name, mem_name, x, fb):
+    """Factorio 2.0 row semantics (AND binds tighter than OR) over: red = the input x on in_name,
+    green = the latch's own output fb on mem_name."""
+    groups, cur = [], []
+    for i, row in enumerate(conds):
+        if not isinstance(row, dict):
+            return None
+        name, wires = row.get("first_signal"), row.get("first_signal_wires")
+        if wires == {"red"} and name is in_name:
+            v = x
+        elif wires == {"green"} and name is mem_name:
+            v = fb
+        else:
+            return None
+        if "second_constant" not in row or not isinstance(row.get("comparator"), str):
+            return None
+        t = A.cmp(row["comparator"], v, row["second_constant"])
+        if i > 0 and row.get("compare_type", "or") == "or":
+            groups.append(cur)
+            cur = []
+        cur.append(t)
+    groups.append(cur)
+    return Or(*[And(*g) for g in groups])
+
+
+def _latch_post(set_op, reset_op, set_priority):
+    def post(a, res):
+        conds = CAP.get("conditions")
+        x, fb = z3.Int("x_in"), z3.Int("fb")
+        in_name = CAP.get("in_name")
+        act = _rows_active(conds, CAP["in_name"], a.module.signal_type, x, fb) if conds is not None and in_name is not None else None
+        if act is None:
+            return False
+        sc, rc = a.op.set_condition[2], a.op.reset_condition[2]
+        S, R = A.cmp(set_op, x, sc), A.cmp(reset_op, x, rc)
+        on = fb > 0
+        spec = Or(S, And(on, Not(R))) if set_priority else And(Or(S, on), Not(R))
+        return And(ops.Iff(act, spec), CAP["output_signal"] is a.module.signal_type, CAP["copy"] is False,
+                   ops.eq(CAP["output_value"], 1))
+    return post
+
+
+def _signal_name_effect(ex, a):
+    v = z3.String(fresh_name("input_signal_name"))
+    CAP["in_name"] = v
+    return v
+
+
+signal_name_cap = Contract(qualname=signal_name.qualname, params=signal_name.params, effect=_signal_name_effect, verify=False,
+                           note="name lookup (the name the rows must read from the red wire)")
+
+_SR = ty.TObj("SignalRef", only=("SignalRef",))
+for _prio, _lt in ((True, "sr_latch"), (False, "rs_latch")):
+    for _so in CMPS:
+        for _ro in CMPS:
+            CONTRACTS.append(Contract(
+                qualname=MB + "_handle_latch_write_inlined",
+                params={"self": ty.TObj("MemoryBuilder", only=("MemoryBuilder",)), "op": ty.TObj("IRLatchWrite", only=("IRLatchWrite",)),
+                        "module": ty.TObj("MemoryModule", only=("MemoryModule",)), "signal_graph": ty.TOpaque("graph")},
+                ensures=[(f"rows encode {'set' if _prio else 'reset'}-priority latch for set {_so} / reset {_ro}", _latch_post(_so, _ro, _prio))],
+                uses={"LayoutPlan.create_and_add_placement": create_placement, "opaque.create_and_add_placement": create_placement,
+                      "SignalAnalyzer.get_signal_name": signal_name_cap, "opaque.get_signal_name": signal_name_cap,
+                      "MemoryBuilder._invert_comparison": "inline", "MemoryBuilder._make_latch_debug_info": "skip",
+                      "MemoryBuilder._setup_latch_feedback": "skip", "MemoryBuilder._create_latch_multiplier": "skip",
+                      "opaque.info": "skip", "opaque.add_sink": "skip", "opaque.set_source": "skip"},
+                dynamic_types={"self": {"layout_plan": ty.TObj("LayoutPlan", only=("LayoutPlan",)), "signal_analyzer": ty.TObj("SignalAnalyzer", only=("SignalAnalyzer",)),
+                                        "diagnostics": ty.TOpaque("diag")},
+                               "op": {"set_condition": ty.TTuple((_SR, ty.TConcrete(_so), ty.Int)), "reset_condition": ty.TTuple((_SR, ty.TConcrete(_ro), ty.Int)),
+                                      "latch_type": ty.TConcrete(_lt), "value": ty.TUnion((_SR, ty.Int)), "memory_id": ty.Str},
+                               "module": {"signal_type": ty.Str, "write_gate": ty.TOpt(ty.TObj("EntityPlacement", only=("EntityPlacement",))),
+                                          "hold_gate": ty.TOpt(ty.TObj("EntityPlacement", only=("EntityPlacement",)))}},
+                properties=("C05",), min_obligations=1, no_replay=True, note=f"{_lt} set {_so} reset {_ro}"))
+
+CONTRACTS += [create_placement, signal_name_cap]
